@@ -75,9 +75,16 @@ def run_tournament(unit) -> UnitResult:
                         r.add_violation(Violation(PROP, "TournamentSelection.apply", "wrong-count", {"form": form}, w,
                                                   f"tournament target {target} on {fits}: {len(winners)} winners"))
                         continue
+                    # participants are observable when every tournament draws exactly `ts` members through choice();
+                    # an implementation drawing them another way is only held to the membership clause
+                    observable = len(picks) == target * ts and all(any(x is y for y in inds) for x in picks)
+                    if observable:
+                        r.count("tournaments_with_observable_participants", target)
                     for i, wnr in enumerate(winners):
                         if all(wnr is not x for x in inds):
                             r.add_violation(Violation(PROP, "TournamentSelection.apply", "winner-not-in-population", {}, w, f"winner {i} is not a member of the given population"))
+                            continue
+                        if not observable:
                             continue
                         part = picks[i * ts: (i + 1) * ts]
                         if len(part) != ts or all(wnr is not x for x in part):
@@ -176,5 +183,6 @@ def run_unit(unit) -> UnitResult:
 
 
 def finalize(cr):
+    cr.require("tournaments_with_observable_participants")
     cr.assumptions += ["populations up to size 3 (quick) / 4 (thorough); tournament populations are enumerated as sorted fitness vectors "
                        "(the operator draws by position, the oracle is position independent)"]
